@@ -22,7 +22,7 @@ TRUSTED = [
 ASSUMPTIONS = [
     'one thread per process at the time of the fork (Pool is thread-local); the child gets a pid different from every process that created a connection it inherits',
     'a connection object is identified by (creating process, serial); "uses" = DB-API calls on it (cursor/execute/commit/rollback/close)',
-    'db.disconnect() in the child: Pool.disconnect closes pool.con without comparing pids - recorded as a known finding (the parent can keep using its connection under SQLite; for a socket driver close() in the child ends the shared server session)',
+    'db.disconnect() in the child is covered: Pool.disconnect compares pids (read from the source; repaired by 7d2063b) and parks an inherited connection',
     'in-memory SQLite databases (:memory:, :sharedmemory:) are outside the statement (a new connection is a new database)',
 ]
 RULE = ('every implementation run is judged twice - by the Coq model (correspondence) and by the statement-level oracle (search): `evaluations` counts both judgements, `distinct_nontrivial` counts each distinct run once. ' 'real os.fork() scenarios: parent history (11 fork points: never connected, pooled after read / write / rollback, disconnected, session begun without '
@@ -64,16 +64,16 @@ def scenarios(ctx, deep=False):
         if name == 'live-session-open-write-transaction':
             # the child must not write, commit or roll back on the inherited connection (it would damage the parent's transaction):
             # it only reads through the inherited session and leaves
-            childs = [['query'], ['query', 'query']]
+            childs = [['query']] + ([['query', 'query']] if deep or ctx.thorough else [])
         elif d == 0:
-            childs = [['begin', 'write', 'end_commit', 'begin', 'query', 'end_commit'],
-                      ['begin', 'query', 'end_rollback']]
+            childs = [['begin', 'write', 'end_commit', 'begin', 'query', 'end_commit']]
+            if deep or ctx.thorough or name == 'pooled-after-read': childs.append(['begin', 'query', 'end_rollback'])
             if deep or ctx.thorough: childs += [['begin', 'query', 'end_commit'], ['begin', 'write', 'query', 'end_commit']]
             if deep or ctx.thorough: childs += [['begin', 'begin', 'query', 'end_commit', 'query', 'end_commit'], ['begin', 'end_commit', 'begin', 'write', 'end_rollback']]
         else:
             childs = [['query'],
-                      ['write'] + closing + ['begin', 'write', 'end_commit'],
                       closing + ['begin', 'query', 'end_commit']]
+            if deep or ctx.thorough or name == 'session-begun-connection-pooled': childs.append(['write'] + closing + ['begin', 'write', 'end_commit'])
             if deep or ctx.thorough: childs.append(['query'] + closing + ['begin', 'query', 'end_commit'])
             if deep or ctx.thorough: childs += [['query', 'write'] + closing, ['begin', 'query', 'end_commit'] + closing]
         if d == 0: afters = [['begin', 'query', 'end_commit']]
@@ -84,7 +84,8 @@ def scenarios(ctx, deep=False):
             for af in afters:
                 out.append({'point': name, 'before': before, 'child': ch, 'after': af})
         # the child's first connect attempt fails (file briefly missing, server refusing): it tries again, in the same and in a new session
-        if d == 0 or name in ('session-begun-no-statement', 'session-begun-connection-pooled'):
+        if (d == 0 or name in ('session-begun-no-statement', 'session-begun-connection-pooled')) and \
+                (deep or ctx.thorough or name in ('never-connected', 'pooled-after-read', 'pooled-after-write', 'session-begun-connection-pooled')):
             opening = ['begin'] if d == 0 else []
             fchilds = [opening + ['query_fail', 'query', 'end_commit', 'begin', 'query', 'end_commit']]
             if deep or ctx.thorough or name == 'pooled-after-read': fchilds.append(opening + ['query_fail', 'end_commit', 'begin', 'write', 'end_commit'])
@@ -92,7 +93,7 @@ def scenarios(ctx, deep=False):
             for ch in fchilds:
                 out.append({'point': name, 'before': before, 'child': ch, 'after': afters[0]})
             # the parent's own connect fails after the fork (no fork involved in the failure): it must recover with its own connection
-            if name in ('never-connected', 'disconnected', 'pooled-after-read'):
+            if name == 'pooled-after-read' or ((deep or ctx.thorough) and name in ('never-connected', 'disconnected')):
                 out.append({'point': name, 'before': before, 'child': ['begin', 'query', 'end_commit'],
                             'after': ['begin', 'query_fail', 'query', 'end_commit']})
     return out
@@ -104,10 +105,10 @@ def with_backends(ctx, scs, deep=False):
     out = [dict(sc, backend='sqlite') for sc in scs]
     # the child calls db.disconnect() right after the fork (what people do "to be safe"), then works
     for name, before in BEFORES:
-        if depth_of(before) == 0:
+        if depth_of(before) == 0 and (deep or ctx.thorough or name in ('pooled-after-read', 'pooled-after-write')):
             out.append({'backend': 'sqlite', 'point': name, 'before': before, 'child': ['disconnect', 'begin', 'query', 'end_commit'], 'after': ['begin', 'query', 'end_commit']})
     pool_scs = []
-    POOL_POINTS = ('never-connected', 'pooled-after-read', 'disconnected', 'session-begun-connection-pooled', 'live-session-read')
+    POOL_POINTS = ('pooled-after-read', 'session-begun-connection-pooled', 'live-session-read')
     for name, before in BEFORES:
         if name not in POOL_POINTS and not (deep or ctx.thorough): continue
         d = depth_of(before)
@@ -358,7 +359,14 @@ def search(ctx, deep):
 
 def replay(ctx, data):
     sc = data['scenario']
-    res, _ = run_scenarios(ctx, [sc], procs=1)
+    # a scenario that this run has already executed is not executed again (same process, same tree)
+    sig = lambda x: (x.get('backend', 'sqlite'), tuple(x['before']), tuple(x['child']), tuple(x['after']))
+    res = None
+    for (scs_c, res_c, _) in _cache.values():
+        for x, r in zip(scs_c, res_c):
+            if sig(x) == sig(sc): res = [r]; break
+        if res: break
+    if res is None: res, _ = run_scenarios(ctx, [sc], procs=1)
     fails, _ = failures_of([sc], res)
     want = data.get('key')
     for f in fails:
@@ -373,6 +381,6 @@ LEVEL_TEXT = ('Machine-checked proof (Coq 8.16.1) over Pool.connect / OraPool.co
               'without passing the pid check) and recorded as a known finding, confirmed by real os.fork() runs, which also tie the model to /repo.')
 LEVEL_NOTE = ('Trusted: Coq kernel + vm_compute; py2coq translator; the hand-written fork/session model (tied by real-fork correspondence on SQLite only); harness proxy for '
               'sqlite3. PGPool and the base Pool (MySQL) also run real-fork histories at pool level against a recording stub driver; OraPool (incl. SessionPool / acquire failing) is translation + theorem only. '
-              'db.disconnect() in the child closing the inherited connection is a known finding with a proposed fix.')
+              'db.disconnect() in the child is inside the theorem (C36_child_with_disconnect).')
 TECHNIQUE = 'py2coq translation of Pool.connect/OraPool.connect; Coq invariant proof over operation histories (induction on op lists); real os.fork() correspondence via vm_compute; statement-level oracle'
 DESIGN_REF = 'DESIGN.md section 5, C36'
